@@ -268,7 +268,7 @@ def replay(case, ctx):
 
 def plan(tier, seed):
     specs = sorted(p.name for p in (env.REPO / "tests" / "data").iterdir() if p.is_dir())
-    n, per = (12, 4) if tier == "quick" else (13, 48)
+    n, per = (13, 12) if tier == "quick" else (13, 48)
     sh = [{"kind": "gen", "n": per} for _ in range(n)]
     big = [s for s in specs if s.startswith(("ilLyo", "ngHel"))]
     rest = [s for s in specs if s not in big]
